@@ -275,6 +275,25 @@ def _vc_sum(x):
     return SymSeries(x.name, Col.from_cells(aggs[0], "i"), first, x.index_, [("vc", p) for p in x.prov], None)
 
 
+def _register_fused():
+    from dask_expr._expr import Fused
+
+    def m_fused_execute(it, graph, name, *deps):
+        """Fused._execute_task(graph, name, *deps): `graph["_i"] = dep`, then dask.core.get(graph, name) - evaluated
+        by this interpreter so that literals inside the fused sub-graph become symbolic too"""
+        sub = dict(graph)
+        inner = Interp(sub, it.env, parent=it)
+        for i, dep in enumerate(deps):
+            inner.memo["_" + str(i)] = dep
+            sub["_" + str(i)] = None
+        out = inner.get(name)
+        it.calls.extend(inner.calls)
+        return out
+
+    m_fused_execute.always = True
+    MODELS[Fused._execute_task] = m_fused_execute
+
+
 # ---------------------------------------------------------------------------------------------- patching
 
 _PATCHED = False
@@ -304,6 +323,8 @@ def patch():
     import dask_expr._collection, dask_expr._groupby, dask_expr._merge, dask_expr._shuffle, dask_expr._concat  # noqa
     import dask_expr._cumulative, dask_expr._indexing, dask_expr._repartition, dask_expr._rolling, dask_expr._reductions  # noqa
     from . import relational, groupby, shuffle  # noqa  (register their models)
+
+    _register_fused()
 
     wrappers = {}
 
